@@ -635,6 +635,25 @@ func main() {
 		e := newEmitter("agent/websockets/*.go")
 		keys, ok := w.mapKeys("stripHeaderNames")
 		e.strs("stripHeaderNames", keys, ok, nil, "agent/websockets var stripHeaderNames (sorted)")
+		// fields of targetURL assigned in createShimChannel (Scheme, Host, Opaque, ...)
+		var assigned []string
+		if fd := w.funcDecl("createShimChannel"); fd != nil {
+			ast.Inspect(fd.Body, func(n ast.Node) bool {
+				as, ok := n.(*ast.AssignStmt)
+				if !ok {
+					return true
+				}
+				for _, l := range as.Lhs {
+					if sel, ok := l.(*ast.SelectorExpr); ok {
+						if id, ok := sel.X.(*ast.Ident); ok && id.Name == "targetURL" {
+							assigned = append(assigned, sel.Sel.Name)
+						}
+					}
+				}
+				return true
+			})
+		}
+		e.strs("targetURLAssignedFields", assigned, w.funcDecl("createShimChannel") != nil, []string{"Scheme", "Host"}, "agent/websockets createShimChannel: fields of targetURL that are overwritten before dialling")
 		caps := w.chanCaps(w.funcDecl("NewConnection"))
 		e.zs("connectionChanCaps", caps, w.funcDecl("NewConnection") != nil, []int64{10, 10}, "agent/websockets NewConnection: make(chan) capacities in source order (server, client)")
 		emit("Websockets", e)
